@@ -27,6 +27,33 @@ def secretize(s, v, boolkind):
     if s[0] == "R": return [secretize(s[1], y, boolkind) for y in v]
 
 
+def secretize_mixed(s, v, mask):
+    """every leaf plain or a secret integer on its own (`mask`: iterator of 0/1)"""
+    if s[0] in ("B", "M"): return PrivVal(v) if next(mask) else v
+    if s[0] == "L": return [secretize_mixed(x, y, mask) for x, y in zip(s[1], v)]
+    if s[0] == "R": return [secretize_mixed(s[1], y, mask) for y in v]
+
+
+def from_bits_of(bits, p):
+    """LinComb.from_bits on the packing, as applications do with a packed structure: value, wire expression on the witness, val()"""
+    secret_at = [i for i, b in enumerate(bits) if isinstance(b, (LinComb, LinCombBool))]
+    fb = {"nsecret": len(secret_at), "plain_at": [i for i in range(len(bits)) if i not in secret_at]}
+    try:
+        r = LinComb.from_bits(list(bits))
+        fb["value"] = plain(r); fb["kind"] = type(r).__name__
+        if isinstance(r, LinCombBool): r = r.lc
+        if isinstance(r, LinComb):
+            on_w = W.ev(r.lc, p)
+            fb["coherent"] = (r.value - on_w) % p == 0; fb["lc_on_witness"] = on_w if on_w <= p // 2 else on_w - p
+            r.val()
+            fb["unsat_after_val"] = [i for i, (a, b, c) in enumerate(B.constraints) if (W.ev(a, p) * W.ev(b, p) - W.ev(c, p)) % p != 0][:3]
+        else:
+            fb["coherent"] = True
+    except Exception as e:
+        fb["error"] = type(e).__name__
+    return fb
+
+
 def plain(x):
     if isinstance(x, list): return [plain(y) for y in x]
     if isinstance(x, LinCombBool): return x.lc.value
@@ -76,7 +103,9 @@ def main():
             W.reset({"p": W.DEFAULT_P, "bl": int(f[2])})
             pk = build(j["schema"])
             out = {"bitlen": pk.bitlen()}
-            val = j["value"] if j["mode"] == "plain" else secretize(j["schema"], j["value"], j["mode"].split(":")[1])
+            val = j["value"] if j["mode"] == "plain" else secretize_mixed(j["schema"], j["value"], iter(j["mask"])) if j["mode"] == "mixed" \
+                else secretize(j["schema"], j["value"], j["mode"].split(":")[1])
+            bits = None
             try:
                 bits = pk.pack(val)
                 out["pack"] = "ok"; out["nbits"] = len(bits); out["bits"] = plain(bits); out["bitkinds"] = sorted(set(map(str, [kinds(b) for b in bits])))
@@ -90,6 +119,8 @@ def main():
             p = W.DEFAULT_P
             out["unsat"] = [i for i, (a, b, c) in enumerate(B.constraints) if (W.ev(a, p) * W.ev(b, p) - W.ev(c, p)) % p != 0][:3]
             out["ncons"] = len(B.constraints)
+            if out.get("pack") == "ok" and bits is not None:
+                out["fb"] = from_bits_of(bits, p)           # after everything that is compared with the model
             res = f"{f[1]}|" + json.dumps(out)
         except BaseException as e:
             if isinstance(e, (KeyboardInterrupt, SystemExit)): raise
